@@ -226,10 +226,41 @@ def independence(s):
     return out
 
 
-def group(job):
-    """job: states [descr], pairs [[i, j]] -> per-state dumps/observations, per-pair ==, values met"""
-    built, infos = [], []
-    for d in job["states"]:
+def vocabulary(domain):
+    return {"types": [[n, t.parent.name if t.parent is not None else "object"] for n, t in domain.types.items() if n != "object"],
+            "consts": [[n, c.type.name] for n, c in domain.constants.items()],
+            "preds": [[n, [[p, t.name] for p, t in pr.signature.items()]] for n, pr in domain.predicates.items()],
+            "funcs": [[n, [[p, t.name] for p, t in f.signature.items()]] for n, f in domain.functions.items()]}
+
+
+def readback(s, dom, pr):
+    """the state's own text through the library's reader: (s' == s and s == s', s'.serialize())"""
+    try:
+        tree = PDDLTokenizer(pddl_str=s.serialize()).parse()
+        s2 = TrajectoryParser(dom, pr).parse_state(tree[1:])
+        return {"value": [bool(s2 == s) and bool(s == s2), s2.serialize()]}
+    except Exception as e:  # noqa
+        return exc(e)
+
+
+class Context:
+    """the domain and the object table the library's reader is run with (one per group)"""
+
+    def __init__(self, ctx):
+        self.dom = get_domain(ctx["domain"])
+        self.pr = get_problem(self.dom, ctx["problem"])
+
+    def dump(self):
+        return {"vocab": vocabulary(self.dom), "objects": [[n, o.type.name] for n, o in self.pr.objects.items()]}
+
+    def observe(self, s):
+        return {"rb_with": readback(s, self.dom, self.pr), "rb_ded": readback(s, self.dom, None)}
+
+
+def build_all(descrs, built, ctx):
+    """builds and observes descrs one after the other, appending to built; returns their infos"""
+    infos = []
+    for d in descrs:
         try:
             s = build(d, built)
         except Exception as e:  # noqa
@@ -237,22 +268,131 @@ def group(job):
             infos.append({"build_raised": exc(e)})
             continue
         built.append(s)
-        info = {"dump": dump_state(s)}
-        info.update(observe(s))
-        infos.append(info)
-    pairs = []
-    for i, j in job["pairs"]:
+        infos.append(look(s, ctx))
+    return infos
+
+
+def look(s, ctx):
+    info = {"dump": dump_state(s)}
+    info.update(observe(s))
+    if ctx is not None:
+        info.update(ctx.observe(s))
+    return info
+
+
+def compare(built, pairs):
+    out = []
+    for i, j in pairs:
         if built[i] is None or built[j] is None:
-            pairs.append({"raised": "BuildFailed", "msg": ""})
+            out.append({"raised": "BuildFailed", "msg": ""})
             continue
         try:
-            pairs.append({"value": bool(built[i] == built[j])})
+            out.append({"value": bool(built[i] == built[j])})
         except Exception as e:  # noqa
-            pairs.append(exc(e))
+            out.append(exc(e))
+    return out
+
+
+def group(job):
+    """job: states [descr], pairs [[i, j]], optional ctx {domain, problem} -> per-state dumps/observations, per-pair =="""
+    ctx = Context(job["ctx"]) if job.get("ctx") else None
+    built = []
+    infos = build_all(job["states"], built, ctx)
+    pairs = compare(built, job["pairs"])
     for s, info in zip(built, infos):
         if s is not None:
             info.update(independence(s))
-    return {"states": infos, "pairs": pairs}
+    out = {"states": infos, "pairs": pairs}
+    if ctx is not None:
+        out["ctx"] = ctx.dump()
+    return out
+
+
+# ---------------------------------------------------------------- process-level sequences
+def noise_step(n):
+    """a library call that has nothing to do with the states under observation (its own texts, its own objects);
+    what it returns is recorded, not judged"""
+    kind = n["kind"]
+    dom = get_domain(n["domain"])
+    pr = get_problem(dom, n["problem"]) if n.get("problem") else None
+    if kind == "trajectory":
+        path = write_tmp(n["text"], ".trajectory")
+        try:
+            obs = TrajectoryParser(dom, pr).parse_trajectory(path)
+        finally:
+            path.unlink()
+        texts = []
+        for comp in obs.components:
+            texts.append(comp.previous_state.serialize())
+            texts.append(comp.next_state.copy().serialize())
+            comp.previous_state == comp.next_state  # noqa
+        return {"components": len(obs.components), "texts": texts[:4]}
+    if kind == "state-text":
+        tree = PDDLTokenizer(pddl_str=n["text"]).parse()
+        s = TrajectoryParser(dom, pr).parse_state(tree[1:])
+        return {"texts": [s.serialize(), s.copy().serialize()], "eq": bool(s == s.copy())}
+    if kind == "problem":
+        s = State(pr.initial_state_predicates, pr.initial_state_fluents, is_init=True)
+        return {"texts": [s.serialize(), s.copy().serialize()], "eq": bool(s == s.copy())}
+    if kind == "succ":
+        s = State(pr.initial_state_predicates, pr.initial_state_fluents, is_init=True)
+        texts = []
+        for name, args in n["calls"]:
+            op = Operator(dom.actions[name], dom, list(args), pr.objects)
+            s = op.apply(s, allow_inapplicable_actions=True)
+            texts.append(s.serialize())
+        return {"texts": texts[:4]}
+    if kind == "export":
+        from pddl_plus_parser.exporters.numeric_trajectory_exporter import TrajectoryExporter
+        exporter = TrajectoryExporter(dom, allow_invalid_actions=True)
+        triplets = exporter.parse_plan(pr, action_sequence=["(%s %s)" % (c[0], " ".join(c[1])) for c in n["calls"]])
+        text = "".join(exporter.export(triplets))
+        path = write_tmp(text, ".trajectory")
+        try:
+            obs = TrajectoryParser(dom, pr).parse_trajectory(path)
+        finally:
+            path.unlink()
+        return {"components": len(obs.components), "texts": [text[:400]]}
+    raise ValueError("unknown noise " + kind)
+
+
+def sequence(job):
+    """One job = one controlled order inside the worker process:
+       1. build and observe the 'before' states, compare all their pairs;
+       2. run the 'noise' steps (unrelated library calls);
+       3. observe the SAME objects again, build and observe the 'after' states (their 'of' indices may point at the
+          old ones: copies / successors of old states made now), compare all pairs over old + new;
+       4. the mutation test on everything (it consumes the states).
+    The mutation test of phase 1 is run on a copy of each state, so that the state itself survives."""
+    ctx = Context(job["ctx"]) if job.get("ctx") else None
+    built = []
+    infos_b = build_all(job["before"], built, ctx)
+    n = len(built)
+    pairs_b = compare(built, [[i, j] for i in range(n) for j in range(n)])
+    for s, info in zip(built, infos_b):
+        if s is not None:
+            try:
+                info.update(independence(s.copy()))
+            except Exception as e:  # noqa
+                info["indep"] = exc(e)
+    noise = []
+    for st in job["noise"]:
+        try:
+            noise.append({"value": noise_step(st)})
+        except Exception as e:  # noqa
+            noise.append(exc(e))
+    infos_a = [look(s, ctx) if s is not None else {"build_raised": {"raised": "BuildFailed", "msg": ""}} for s in built]
+    infos_a += build_all(job["after"], built, ctx)
+    m = len(built)
+    pairs_a = compare(built, [[i, j] for i in range(m) for j in range(m)])
+    for s, info in zip(built, infos_a):
+        if s is not None:
+            info.update(independence(s))
+    out = {"before": {"states": infos_b, "pairs": pairs_b}, "noise": noise,
+           "after": {"states": infos_a, "pairs": pairs_a}}
+    if ctx is not None:
+        out["before"]["ctx"] = out["after"]["ctx"] = ctx.dump()
+    return out
 
 
 def float_facts(job):
